@@ -99,6 +99,66 @@ if scope in ("all", "synthetic"):
 files = [f for f in files if os.path.isfile(f) and sharepoint2text.is_supported_file(f)]
 if order == "rev":
     files.reverse()
+
+def pristine(f):
+    """to_json() of the document extracted in a process that has extracted nothing else: a fork of this (still pristine)
+    process, so that the comparison does not depend on which documents happen to precede it in the corpus order."""
+    rd, wr = os.pipe()
+    pid = os.fork()
+    if pid == 0:
+        code = 0
+        try:
+            os.close(rd)
+            data = open(f, "rb").read()
+            j = [js(r) for r in sharepoint2text.get_extractor(f)(io.BytesIO(data), f)]
+            with os.fdopen(wr, "w") as fh:
+                fh.write(hashlib.sha256("".join(j).encode()).hexdigest())
+        except BaseException:
+            code = 3
+        os._exit(code)
+    os.close(wr)
+    with os.fdopen(rd, "r") as fh:
+        raw = fh.read()
+    _pid, status = os.waitpid(pid, 0)
+    if status != 0 or len(raw) != 64:
+        return None
+    return raw
+
+def preimport():
+    """Import (not run) every module the package imports anywhere, also inside functions: the forked baselines then do not
+    each repeat the lazy imports."""
+    import ast, importlib
+    names = set()
+    for dp, _dn, fs in os.walk(os.path.join(repo, "sharepoint2text")):
+        if os.sep + "tests" in dp:
+            continue
+        for fn in fs:
+            if fn.endswith(".py"):
+                try:
+                    tree = ast.parse(open(os.path.join(dp, fn), encoding="utf-8").read())
+                except (OSError, SyntaxError, ValueError):
+                    continue
+                for n in ast.walk(tree):
+                    if isinstance(n, ast.Import):
+                        names.update(a.name for a in n.names)
+                    elif isinstance(n, ast.ImportFrom) and n.module and not n.level:
+                        names.add(n.module)
+    for name in sorted(names):
+        if "sharepoint_io" in name or name.endswith("__main__") or ".cli" in name:
+            continue
+        try:
+            importlib.import_module(name)
+        except BaseException:
+            pass
+
+fresh = {}
+if order == "fwd" and hasattr(os, "fork") and not os.environ.get("C06_NO_FORK_BASELINE"):
+    preimport()
+    for f in files:
+        try:
+            fresh[f] = pristine(f)
+        except OSError:
+            pass
 out = {}
 for f in files:
     name = f[len(repo) + 1:] if f.startswith(repo + "/") else "synthetic/" + os.path.basename(f)
@@ -110,6 +170,8 @@ for f in files:
         j1 = [js(r) for r in res]
         rec = {"digest": hashlib.sha256("".join(j1).encode()).hexdigest(), "json": j1, "buffer_unchanged": same(buf, data),
                "observer_stable": True, "repeat_stable": True, "history": []}
+        if fresh.get(f) is not None and fresh[f] != rec["digest"]:
+            rec["fresh_differs"] = True
         full = []
         out[name] = rec
         stage = "observing the result (units, images, tables, attachments, streams) and serialising it again"
@@ -594,6 +656,29 @@ def mismatches(repo, scope="all", seeds=(1, 2)):
     return r
 
 
+FRESH_ONE = r'''
+import sys, io, json, logging
+logging.disable(logging.CRITICAL)
+repo, f = sys.argv[1], sys.argv[2]
+sys.path.insert(0, repo)
+import sharepoint2text
+data = open(f, "rb").read()
+print(json.dumps([json.dumps(r.to_json(), sort_keys=True, default=str) for r in sharepoint2text.get_extractor(f)(io.BytesIO(data), f)]))
+'''
+
+
+def fresh_json(repo, synth, name):
+    """to_json() of one corpus document extracted in a process of its own."""
+    f = os.path.join(synth, name[len("synthetic/"):]) if name.startswith("synthetic/") else os.path.join(repo, name)
+    try:
+        p = subprocess.run([sys.executable, "-c", FRESH_ONE, repo, f], capture_output=True, text=True, timeout=120,
+                           env=dict(os.environ, PYTHONHASHSEED="1", LC_ALL="C.UTF-8", LANG="C.UTF-8", TZ="UTC"))
+        lines = [l for l in p.stdout.splitlines() if l.startswith("[")]
+        return json.loads(lines[-1]) if lines else None
+    except (subprocess.TimeoutExpired, ValueError, OSError):
+        return None
+
+
 def _mismatches_uncached(repo, synth, scope, seeds):
     procs = [start(s, repo, synth, "fwd" if i % 2 == 0 else "rev", scope) for i, s in enumerate(seeds)]
     runs = [collect(p) for p in procs]
@@ -601,6 +686,7 @@ def _mismatches_uncached(repo, synth, scope, seeds):
         return None
     a = runs[0]
     out = []
+    n_fresh = 0
     for f in sorted(a):
         ra = a[f]
         if "error" in ra:
@@ -611,6 +697,20 @@ def _mismatches_uncached(repo, synth, scope, seeds):
             out.append((f, "to_json() changed by observers (units / images / streams read)", ""))
         for h in sorted({h for r in runs for h in r.get(f, {}).get("history", [])}):
             out.append((f, h, ""))
+        for r in runs:
+            if r.get(f, {}).get("fresh_differs"):
+                paths = []
+                n_fresh += 1
+                fj = fresh_json(repo, synth, f) if n_fresh <= 8 else None      # where it differs: one more fresh process, this document only
+                for x, y in zip(fj or [], r[f].get("json", [])):
+                    try:
+                        _diff(json.loads(x), json.loads(y), "", paths)
+                    except ValueError:
+                        pass
+                if fj is not None and len(fj) != len(r[f].get("json", [])):
+                    paths.append("<number of results>")
+                out.append((f, "to_json() differs between a fresh process and a process that has extracted other documents before",
+                            ",".join(sorted(set(paths))[:6])))
         if not all(r.get(f, {}).get("repeat_stable", True) for r in runs):
             paths = []
             for r in runs:
